@@ -71,6 +71,12 @@ def plans_c04(prop, tier, seed):
         dict(name="exhLoadHASH", consts=base_consts(NR=3, Writer0=[1, 2, 3], MaxE=5, MaxOps=6, Fn="HASH", HashPerm="rev", ForkOn={3},
                                                     LoadKinds={"json", "hash"}),
              max_scripts=25000 if q else 300000),
+        # a fork of nine branches, one of them long (more heads than the pointer count, the newest head's ancestors
+        # sorting above the other heads), then one append with each pointer count
+        dict(name="wideFork", mode="all", consts=base_consts(NR=9, Writer0=[1, 2, 3, 4, 2, 3, 4, 2, 3], Lid=["X"] * 9,
+                                                             Denied=[set()] * 9, MaxE=40, MaxOps=40, PCs={1, 2, 4, 8}),
+             scripts=[[["A", 1, 1]] * 12 + [["A", k, 1] for k in range(2, 10)] + [["J", 1, k] for k in range(2, 10)] + [["A", 1, pc]]
+                      for pc in (1, 2, 4, 8)]),
         dict(name="sim", consts=base_consts(NR=3, MaxE=40, MaxOps=60, PCs={1, 2, 3, 5, 8, 16, 33, 64},
                                             Writers={1, 2, 3}),
              simulate=(6 if q else 60, 60), mode="all"),
@@ -168,6 +174,12 @@ def plans_c18(prop, tier, seed):
              consts=base_consts(NR=2, Writer0=[1, 2], Lid=["X"] * 2, Denied=[set()] * 2, MaxE=4, MaxOps=5 if q else 6, PCs={1, 2},
                                 ForkOn={1, 2}, LoadKinds={"entry", "json", "hash", "mh"}),
              max_scripts=20000 if q else 200000),
+        # two replicas sharing one writer identity (and one codec instance), identical payloads, different pointer counts:
+        # entries that differ in their references only
+        dict(name="lk1twin", audit="c18", codec="cbor+lk1", payload="const", mode="all",
+             consts=base_consts(NR=2, Writer0=[1, 1], Lid=["X"] * 2, Denied=[set()] * 2, MaxE=4 if q else 5, MaxOps=5 if q else 6,
+                                PCs={1, 4}),
+             max_scripts=6000 if q else 60000),
         dict(name="lk2", audit="c18", codec="cbor+lk2", mode="all",
              consts=base_consts(NR=3, MaxE=12, MaxOps=24, PCs={1, 2, 4, 8}),
              simulate=(6 if q else 60, 24)),
